@@ -60,9 +60,15 @@ CHECKS = {
  "C18": ("relational monitor: marker sets of one (value, rule list) compared across ten carriers",
          "One scalar value under 1-4 rules supported by all inputs (unique message per rule instance) is presented as struct field (tag and RM), Var, map[string]T, map[string]interface{}, []map and, for strings, Url in raw, percent-encoded (among decoys, first/middle/last) and whole-URL-encoded form, with values containing & = + % ? # space and CJK. The set of reported rule instances must be identical for every carrier; any carrier-specific extra clause is a violation too.",
          "No model decides the verdict (the reference validator only names the odd one out); map[string]interface{} carriers have an open known finding.", "§3 C18"),
+ "C11": ("Go race detector + solo-vs-concurrent result comparison under goroutine stampedes with yield injection through the public cache interface",
+         "A -race binary releases 2-32 goroutines together on a cold type cache; each executes hundreds to thousands of heterogeneous calls (every public entry point, three tag names, overrides, per-call functions, groups, one-off types) on independent inputs of shared and private struct types, under the default cache and under NewLRU(2) wrapped by a cache that yields between a Load miss and the following Store. Every call is then executed again alone and the two results must be equal; every race-detector report with a library frame, panic, fatal error or hang in the library's lock is a violation. Evidence reports calls in flight, double misses, cross-goroutine pool hand-overs and overlapping entry-point pairs actually observed.",
+         "Only executed interleavings are judged; schedule-dependent minimums are met by repeating the run (by count, never by clock); results compared as sorted clause lists.", "§3 C11"),
+ "C12": ("relational history monitor (orders, permutations, adversarial predecessors, fresh-process samples) + twin-input mutation check + retained-string monitor under checkptr",
+         "A seeded history of heterogeneous calls is executed in order, reversed, in seeded permutations and with an adversarial predecessor (other tag, other override, per-call functions of the same names, entry-guard refusals) before every call; per call all results must be equal, and equal to the call executed as the first call of a fresh process for a sample. Inputs are compared with twins built from the same seed after the calls (input and rule maps unmodified). Every returned error text, split token and parsed triple is retained next to a byte copy and re-compared after later calls and garbage collections.",
+         "Functions inside Name2FnMap are compared by key only; -race implies checkptr for the unsafe string conversions; sampled fresh-process comparison.", "§3 C12"),
 }
 
-NOT_YET = "monitor not built yet in this round (planned, see DESIGN.md §3)"
+NOT_YET = "monitor not built yet (planned, see DESIGN.md §3)"
 
 def main():
     props = [json.loads(l) for l in open(os.path.join(VERIF, "properties.jsonl"))]
